@@ -55,6 +55,10 @@ type RawServer struct {
 	SendErr error
 	key     byte
 	ret     error // what the raw network server returns from its handler
+	// the window this server announced in its settings (ServeConforming holds the client to it)
+	Window        uint32
+	HaveWindow    bool
+	WindowOverrun string
 }
 
 //go:norace
@@ -526,6 +530,20 @@ func (rs *RawServer) SendMessage(id int64, b []byte, chunk int) {
 func (rs *RawServer) ServeConforming(w *World, onStream func(sid int64, ns *tunnelpb.NewStream)) {
 	served := map[int64]bool{}
 	revOne := map[int64]bool{}
+	// un-credited request bytes per stream, assuming every credit this server
+	// grants takes effect at once (a lower bound of what is really
+	// outstanding, so a conforming client never exceeds the announced window)
+	out := map[int64]int64{}
+	data := func(sid int64, n int) {
+		if !revOne[sid] || !rs.HaveWindow {
+			return
+		}
+		out[sid] += int64(n)
+		if out[sid] > int64(rs.Window) && rs.WindowOverrun == "" {
+			rs.WindowOverrun = fmt.Sprintf("stream %d: a data frame of %d bytes arrived with %d bytes un-credited; the settings announced a window of %d", sid, n, out[sid]-int64(n), rs.Window)
+		}
+		out[sid] -= int64(n) // credited right away, below
+	}
 	seen := 0
 	for !rs.Ended {
 		rs.WaitNew(func() bool { return len(rs.Got) > seen })
@@ -538,10 +556,12 @@ func (rs *RawServer) ServeConforming(w *World, onStream func(sid int64, ns *tunn
 					onStream(m.StreamId, f.NewStream)
 				}
 			case *tunnelpb.ClientToServer_RequestMessage:
+				data(m.StreamId, len(f.RequestMessage.Data))
 				if revOne[m.StreamId] && len(f.RequestMessage.Data) > 0 {
 					rs.Send(SWin(m.StreamId, uint32(len(f.RequestMessage.Data))))
 				}
 			case *tunnelpb.ClientToServer_MoreRequestData:
+				data(m.StreamId, len(f.MoreRequestData))
 				if revOne[m.StreamId] && len(f.MoreRequestData) > 0 {
 					rs.Send(SWin(m.StreamId, uint32(len(f.MoreRequestData))))
 				}
